@@ -82,14 +82,14 @@ PROPS['C09'] = dict(
     level_text='Unbounded proof (all N, sizes, columns, limb values): every limb of the selected column equals the exact ring map of the operand limbs by the documented size rule; rotation, automorphism and ring switching equal their Z[X]/(X^N+1) spec for every exponent; trait contracts discharged for the FFT64Ref/NTT120Ref/ZnxRef implementors.',
     level_note='Trusted: the VecZnx accessor interface (I-LAYOUT), vstd, the extraction rules; wrapping-free preconditions (no i64 overflow) are part of the contracts; big-accumulator (i128) variants, split_ring/merge_rings and AVX kernels are not covered by this check.',
     units=[
-        V('znx'), V('vec_znx_arith'), V('vec_znx_ring'), V('vec_znx_merge'), V('galois'),
+        V('znx'), V('vec_znx_arith'), V('vec_znx_ring'), V('vec_znx_merge'), V('vec_znx_big'), V('galois'),
         K('poulpy-cpu-ref', 'verif_kani', ['c09_mask_mod_i64', 'c09_mask_mod_usize', 'c03_mask_mod_u64'], cls='complete', timeout=600,
           functions=['leaf fact: p & (m-1) == p mod m for power-of-two m (imported by znx_rotate / znx_automorphism_ref / galois_element proofs)']),
     ],
     trusted_base=VERUS_TRUST,
     assumptions=['no i64 overflow in limb-wise add/sub/negate (stated as preconditions; the debug profile would panic, the release profile wraps)',
                  'ring degree N a power of two <= 2^28 for rotate/automorphism (precondition)'],
-    remainder='vec_znx_split_ring (only a bounded Kani harness, thorough tier), big-accumulator variants, AVX kernels (C10)',
+    remainder='vec_znx_split_ring (only a bounded Kani harness, thorough tier), FFT64 big-accumulator automorphism/negate and all NTT120 (i128) big-accumulator variants, AVX kernels (C10)',
 )
 
 PROPS['C11'] = dict(
@@ -97,7 +97,7 @@ PROPS['C11'] = dict(
     technique='Verus postconditions that define every limb of the selected column from the inputs only, plus frame clauses over all other limb blocks, on the extracted real text',
     level_text='Unbounded proof for the coefficient-domain column operations: each ensures gives final(res).limb(col, j) for all j < size as a function of the read-only inputs (no old(res) on the right-hand side for out-of-place ops) and frame_ok: every block outside (col, 0..size) is unchanged.',
     level_note='Covers the vec_znx_* reference operations under contract (see functions_under_contract); the DFT-family operations and the core layer are not covered by this check (no abstract-kernel harness built yet).',
-    units=[V('vec_znx_arith'), V('vec_znx_ring'), V('vec_znx_merge'), V('vec_znx_normalize')],
+    units=[V('vec_znx_arith'), V('vec_znx_ring'), V('vec_znx_merge'), V('vec_znx_big'), V('vec_znx_normalize')],
     trusted_base=VERUS_TRUST,
     assumptions=['operands are distinct objects from the result (Rust borrow rules: &mut res vs &a)'],
     remainder='DFT-domain operations (vec_znx_dft_*, svp_*, vmp_*, cnv_*), vec_znx_big_*, cross-radix normalisation, shifts, core-layer operations',
